@@ -446,7 +446,7 @@ def run_c18(tier):
     mc, tuples = model_check_run()
     ins, genstat = inputs(rnd, tier)
     good = [t for t, v in tuples if v == "supported" and t["fault"] == "" and t["lang"] == ""]
-    faulty = [t for t, v in tuples if v == "supported" and t["fault"] != "" and t["lang"] == "" and t["shape"] == "none"]
+    faulty = [t for t, v in tuples if v in ("supported", "free") and t["fault"] != "" and t["lang"] == "" and t["shape"] == "none" and t["sched"] in ("none", "single1970")]
     jobs = []
     for c in ("us", "jp", "es", "ie", "generic"):
         mine = [t for t in good if t["country"] == c]
@@ -455,7 +455,7 @@ def run_c18(tier):
             job["audit"] = True
             if n % 4 == 2:
                 job["env"] = {"RP2_ENABLE_PROFILER": "1", "LOG_LEVEL": "DEBUG"}      # the switches rp2 reads from the environment
-            if n % 4 == 0 and n > 0:
+            if n % 4 == 0:
                 job["cwd_files"] = {"log": "a file, not a directory\n"}               # the working directory already holds a FILE named log
             if n % 2 == 1:
                 # the output directory already holds entries named like this run's reports: stale files, and symbolic links to files kept elsewhere
